@@ -111,7 +111,7 @@ def gen_draws(r, thorough):
             d = draw_with(r, k1, k2)
             if d is not None:
                 out.append(d)
-    for _ in range(400 if thorough else 60):
+    for _ in range(4000 if thorough else 60):
         out.append(bytes(r.randrange(256) for _ in range(12)))
     return list(dict.fromkeys(out))
 
@@ -315,8 +315,33 @@ def compare_peer(ctx, drv, cases, outs):
                 ctx.tie_broken("correspondence: handle_peer_message differs from the model on a point the property does not constrain", str(data))
 
 
+def crosscheck_extraction(ctx, drv, draws):
+    """thorough tier: the extracted model and its driver against vm_compute inside Coq (exact id strings)"""
+    secs = 1790000000
+    rc, outs, err = run_model(drv, ["u %s %s %d" % (d.hex(), "00" * 12, secs) for d in draws])
+    if rc != 0 or len(outs) != len(draws):
+        ctx.tie_broken("model driver c20 crashed (cross-check)", err[-2000:])
+        return
+    items = []
+    for d, o in zip(draws, outs):
+        idb = unhx(fields(o)["file1"])
+        items.append("([%s], [%s])" % (";".join(str(x) for x in d), ";".join(str(x) for x in idb)))
+    v = ("From RB Require Import Base.Prelude Conn.DispatchMsg Conn.Peer.\n"
+         "Definition cases : list (list N * list N) := [\n%s].\n"
+         "Definition agree (c : list N * list N) : bool :=\n"
+         "  str_eqb (format_uuid (rand1_of (fst c)) (rand2_of (fst c)) (%d mod 2 ^ 32)) (snd c).\n"
+         "Eval vm_compute in (forallb agree cases).\n") % (";\n".join(items), secs)
+    res = vlib.coq_eval("c20cases", v)
+    ctx.extra["extraction_crosscheck"] = "%d ids computed with vm_compute inside Coq and by the extracted model: %s" % (
+        len(draws), "agree" if "= true" in res else "DISAGREE")
+    if "= true" not in res:
+        ctx.tie_broken("extracted model / driver disagree with vm_compute inside Coq", res[-1500:])
+
+
 def run_in_namespace(ctx, exe, drv, r, thorough, tmpd):
     draws = gen_draws(r, thorough)
+    if thorough:
+        crosscheck_extraction(ctx, drv, draws[:300])
     cases = gen_peer_lines(r, thorough, True)
     nshard = min(8, vlib.NPROC)
     import concurrent.futures as cf
